@@ -271,7 +271,7 @@ def case_hash(case):
 
 
 def write_replay(pid, case, coq, impl, note):
-    d = os.path.join(VERIF, "evidence", "replay")
+    d = os.path.join(os.environ.get("PV_EVIDENCE_DIR") or os.path.join(VERIF, "evidence"), "replay")
     os.makedirs(d, exist_ok=True)
     p = os.path.join(d, "%s-%s.json" % (pid, case_hash(case) if case else hashlib.sha1(note.encode()).hexdigest()[:16]))
     with open(p, "w") as f:
@@ -303,7 +303,7 @@ def run_check(pid, tier, replay=None):
     seed = int(os.environ.get("VERIF_SEED", "0") or 0)
     rng = random.Random("%s/%d" % (pid, seed))
     scratch = make_scratch()
-    ev_path = os.path.join(VERIF, "evidence", pid + ".json")
+    ev_path = os.path.join(os.environ.get("PV_EVIDENCE_DIR") or os.path.join(VERIF, "evidence"), pid + ".json")
     os.makedirs(os.path.dirname(ev_path), exist_ok=True)
     violations = []   # (case, coq, impl, note, has_input)
     notes = []
@@ -333,6 +333,20 @@ def run_check(pid, tier, replay=None):
                    theorems=pinfo["theorems"])
         if hy:
             notes.append("hygiene: " + "; ".join(hy))
+        if tier == "thorough" and proofs_ok:
+            try:
+                r = subprocess.run(["coqchk", "-o", "-silent", "-Q", COQ, "PV", "PV.Properties." + pid],
+                                   stdout=subprocess.PIPE, stderr=subprocess.STDOUT, text=True, timeout=2400, cwd=COQ)
+                summ = r.stdout[r.stdout.find("CONTEXT SUMMARY"):] if "CONTEXT SUMMARY" in r.stdout else r.stdout[-1500:]
+                summ = re.sub(r"\s+", " ", summ)
+                cov["coqchk"] = {"exit": r.returncode, "summary": summ[:3000]}
+                cov["trusted_base"].append("coqchk -o (independent checker) exit %d: %s" % (r.returncode, summ[:600]))
+                if r.returncode != 0:
+                    proofs_ok = False
+                    cov["discharged"] = 0
+                    pinfo["log"] = "coqchk failed: " + r.stdout[-1500:]
+            except subprocess.TimeoutExpired:
+                notes.append("coqchk timed out (not counted)")
         model_ok, _ = coq_make([P.COQ_REQUIRE.replace(".", "/") + ".vo"]) if not ok_make else (True, "")
         if not model_ok:
             p = write_replay(pid, None, None, None, "model does not compile: " + make_log[-2000:])
